@@ -32,7 +32,7 @@ func init() {
 		ID:    "C14",
 		Title: "Tokens tile the input; longest match; spacing is insignificant",
 		Rule: "scanner driven directly over every byte string up to n bytes over 21 raw bytes and every concatenation of up to 3 lexemes with every joiner (none, space, tab, NBSP, newline) incl. leading/trailing: tiling invariants + token-by-token differential against an independent longest-match tokenizer up to the first lexical error; " +
-			"metamorphic spacing oracle (all joiner assignments that tokenize alike must parse alike, a line break before . !. ( may only turn acceptance into rejection); every code point 0..0x10FFFF for the four class predicates and through the scanner; distinct = distinct token-kind vectors / class vectors",
+			"metamorphic spacing oracle, also over every sequence of 4 (thorough: 5) lexemes of list, call and selection punctuation and over whole formulas including refused ones such as trailing commas (all joiner assignments that tokenize alike must parse alike, a line break before . !. ( may only turn acceptance into rejection); every code point 0..0x10FFFF for the four class predicates and through the scanner; distinct = distinct token-kind vectors / class vectors",
 		TrustedBase: []string{"internal/ref/tok.go", "internal/ref/es5tables.go (pinned golden snapshot of the ES5 identifier tables)"},
 		Assumptions: []string{"no independent ES5 table exists offline: table content is compared with a pinned snapshot, table lookup with a linear search of it", "U+200B counts as white space (the statement's ES sets are the TypeScript scanner's)"},
 		Run:         runC14,
@@ -401,8 +401,31 @@ func runC14(w *eng.W) {
 			c14Space.Do(w, SpaceCase{Lexemes: lex})
 		})
 	}
+	// longer sequences over the punctuation of lists, calls and selections (refused and accepted alike),
+	// with nothing / space / newline at every inner gap
+	listAlpha := []string{"a", "1", ",", "(", ")", "[", "]", "...", ".", "+", "?", ":"}
+	lmax := 4
+	if !q {
+		lmax = 5
+	}
+	for l := 4; l <= lmax; l++ {
+		seqsSharded(w, len(listAlpha), l, func(idx []int) {
+			lex := make([]string, len(idx))
+			for i, x := range idx {
+				lex[i] = listAlpha[x]
+			}
+			w.State(1)
+			w.Trans(1)
+			w.Trace(1)
+			w.Note("leg:spacing-lists", 1)
+			c := SpaceCase{Lexemes: lex, Reduced: true}
+			w.Sample("spacing-lists", c)
+			c14Space.Do(w, c)
+		})
+	}
 	// whole formulas: every placement of nothing / space / newline between their tokens
-	formulas := []string{"a . b + c", "a !. b ( 1 )", "f ( a . b , c )", "a . b . c", "a . b ? 1 : 2", "[ a . b , - c ]", "typeof a . b", "a . b ( c ) . d", "$x = a . b , $x", "! a . true", "( a . b ) * 2", "a ?? b . c", "f ( xs ... )", "a . b == 'c'"}
+	formulas := []string{"[ 1 , ]", "f ( a , )", "f ( a , b , )", "[ a , b , ]", "f ( a , ... )", "f ( a ... , )", "[ , 1 ]", "[ 1 , , 2 ]", "f ( )", "[ ]", "a ? b :", "( a , )", "f ( a b )", "[ 1 2 ]", "f ( g ( a , ) )", "[ [ 1 , ] ]", "f ( [ a , ] , b )", "x ? [ 1 , ] : 2",
+		"a . b + c", "a !. b ( 1 )", "f ( a . b , c )", "a . b . c", "a . b ? 1 : 2", "[ a . b , - c ]", "typeof a . b", "a . b ( c ) . d", "$x = a . b , $x", "! a . true", "( a . b ) * 2", "a ?? b . c", "f ( xs ... )", "a . b == 'c'"}
 	for _, fm := range formulas {
 		if !w.Take() {
 			continue
